@@ -34,6 +34,8 @@ ILL = ['contains(5)', 'amount > "x"', 'next(r for r in rows)', 'len(amount) > 1'
        'description % 2 == 0', 'fuzzy(5)', 'normalized(None)', 'txn.nope == 1', '[r.item for r in rows][9] == 1',
        'next(r.item for r in rows if r.amount > 999)', 'anyof(1, 2)', 'regex_replace(1) == ""', 'trim(1, 2) == ""',
        'sum(r.item for r in rows) > 0', 'all(x.y for x in description)', 'exists(amount > "x")', 'month.lower() == "x"']
+LAZY_VALUE = ['(x for x in amount)', '(c for c in 5)', '(r.nope for r in rows)', '(r.item for r in w0)', '(x.y for x in description)',
+              '(r for r in rows if r.amount > "s")', '(1 / x for x in amount)']
 ILL_VALUE = ['field.nope', 'extract("(")', 'description + 1', 'next(r for r in rows)', 'unknown_var', 'amount.upper()',
              'rows[9].item', 'split(description, 1, 2)', 'regex_replace(description, "(", "")', 'len(5)']
 GOOD_VALUE = ['extract("#(\\\\d+)")', 'source', 'uppercase(source)', 'split(description, " ", 0)', '"static"', 'field.memo']
@@ -59,19 +61,25 @@ def gen_engine_case(rnd):
         tags = []
         for _ in range(rnd.randint(0 if r.get('category') else 1, 2)):
             tags.append(rnd.choice(['t1', 'T2', 'weekly']) if rnd.random() < .6 else
-                        '{' + rnd.choice(ILL_VALUE if rnd.random() < .5 else GOOD_VALUE) + '}')
+                        '{' + rnd.choice(ILL_VALUE + LAZY_VALUE if rnd.random() < .5 else GOOD_VALUE) + '}')
         r['tags'] = list(dict.fromkeys(tags))
-        if rnd.random() < 0.3:
-            r['lets'] = [(f'v{i}', rnd.choice(ILL_VALUE + GOOD_VALUE + ['amount * 2']))]
+        if rnd.random() < 0.4:
+            r['lets'] = [(f'v{i}', rnd.choice(ILL_VALUE + GOOD_VALUE + LAZY_VALUE + ['amount * 2', 'rows', 'empty']))]
             if rnd.random() < 0.5:
-                r['match'] = rnd.choice([f'v{i} == "x"', f'v{i} > 5', f'contains("NETFLIX") or v{i} == 1', f'contains(v{i})'])
+                # chained let: the second binding consumes the first (which may have failed -> None, or be lazy)
+                r['lets'].append((f'u{i}', rnd.choice([f'(o.item for o in v{i})', f'[o.item for o in v{i}]', f'next(v{i})', f'len(v{i})',
+                                                       f'sum(v{i})', f'v{i} + 1', f'list_of(v{i})'])))
+            if rnd.random() < 0.5:
+                r['match'] = rnd.choice([f'v{i} == "x"', f'v{i} > 5', f'contains("NETFLIX") or v{i} == 1', f'contains(v{i})',
+                                         f'any(x == "Book" for x in v{i})', f'contains("NETFLIX") and len([x for x in v{i}]) >= 0'])
         if rnd.random() < 0.3:
-            r['fields'] = [(f'f{i}', rnd.choice(ILL_VALUE + GOOD_VALUE))]
+            r['fields'] = [(f'f{i}', rnd.choice(ILL_VALUE + GOOD_VALUE + LAZY_VALUE))]
         if rnd.random() < 0.2:
             r['priority'] = rnd.randint(0, 3)
         rules.append(r)
     case = {'kind': 'engine', 'rules': rules, 'modes': ['first_match', 'most_specific'],
-            'variables': [('big', rnd.choice(['amount > 100', 'amount > "x"', 'nope + 1']))] if rnd.random() < .4 else [],
+            'variables': [('big', rnd.choice(['amount > 100', 'amount > "x"', 'nope + 1'] + LAZY_VALUE)),
+                          ('w0', rnd.choice(['rows', 'field.nope', '5', '(r for r in rows)']))][:rnd.randint(1, 2)] if rnd.random() < .5 else [],
             'transforms': [('field.description', rnd.choice(['regex_replace(field.description, "^SQ \\\\*", "")',
                                                              'field.description + 1', 'uppercase(field.nope)']))] if rnd.random() < .3 else [],
             'data_sources': {'rows': [{'item': 'Book', 'amount': 12.5}, {'item': 'Pen', 'amount': 3.0}], 'empty': []},
@@ -87,10 +95,15 @@ def gen_views_case(rnd):
     views = []
     for i in range(rnd.randint(2, 5)):
         v = {'name': f'V{i}', 'filter': rnd.choice(VILL if rnd.random() < .4 else VGOOD)}
-        if rnd.random() < .3:
-            v['locals'] = [(f'l{i}', rnd.choice(['total / 2', 'total > "x"', 'nope']))]
-            if rnd.random() < .5:
-                v['filter'] = f'l{i} > 10'
+        if rnd.random() < .45:
+            # local names are drawn from a small pool shared with the global variables and the primitives,
+            # so that a (failing) local of one view shadows something another view reads
+            ln = rnd.choice(['g', 'monthly', 'total', 'months', f'l{i}', 'lim'])
+            v['locals'] = [(ln, rnd.choice(['total / 2', 'total > "x"', 'nope', 'sum(by("month")) / months', 'category + 1', '50']))]
+            if rnd.random() < .6:
+                v['filter'] = rnd.choice([f'{ln} > 10', f'{ln} >= 0 and total > 1', f'total > 1 or {ln} > 5'])
+        elif rnd.random() < .5:
+            v['filter'] = rnd.choice(['g > 10', 'monthly > 5', 'lim > 1 or total > 20', 'g >= 0', 'monthly >= 0 and months >= 1'])
         views.append(v)
     merchants = []
     for j in range(rnd.randint(1, 4)):
@@ -100,7 +113,8 @@ def gen_views_case(rnd):
                                         'date': f'2025-{rnd.randint(1, 6):02d}-{rnd.randint(1, 28):02d}'}
                                        for _ in range(rnd.randint(1, 5))]})
     return {'kind': 'views', 'views': views, 'merchants': merchants,
-            'variables': [('g', rnd.choice(['total * 2', 'total > "x"', 'nope']))] if rnd.random() < .4 else []}
+            'variables': [('g', rnd.choice(['total * 2', 'total > "x"', 'nope'])), ('monthly', 'total / months'),
+                          ('lim', rnd.choice(['10', 'nope']))][:rnd.randint(1, 3)] if rnd.random() < .7 else []}
 
 
 def oracle(case, r):
